@@ -20,9 +20,9 @@ RULE = ("files: standard V/W/C header (+ optional ~P/~O before ~A) and a data se
         "signed, .5, 5.}, separators {blanks, tabs, mixed}, leading/trailing padding, blank/#-comment lines at any "
         "position with density 0..50%, NULL-equal cells. distinct = distinct (row class, column class, trailing kind, "
         "placement, eol, final newline, spelling set, noise class) among comparisons whose numpy read took the fast "
-        "path; non-trivial = such a comparison with r*c >= 2 or noise lines or a following section")
+        "path; non-trivial = such a comparison with r*c >= 2 or noise lines or a following section Added later: DLM TAB with runs of tabs, WRAP NO in other spellings, declared curves fewer / more than the columns.")
 ASSUMPTIONS = [
-    "WRAP NO, DLM absent, default read/null policies; tokens are plain decimal numbers so that both engines are in their domain",
+    "unwrapped files (WRAP NO in several spellings: No, no, N, FALSE ...), DLM absent or TAB, default read/null policies; tokens are plain decimal numbers so that both engines are in their domain; declared curves may be fewer or more than the data columns",
     "bit identity is demanded because the statement demands it; -0.0 tokens are generated and compared by bit pattern too",
 ]
 REQUIRED = ["comparisons", "fast_path_comparisons", "fast_path_with_following_section", "fast_path_single_row",
